@@ -355,7 +355,7 @@ func c12ServeH2C(ln net.Listener, h http.Handler) {
 		if err != nil {
 			return
 		}
-		go srv.ServeConn(c, &xhttp2.ServeConnOpts{Handler: h})
+		go srv.ServeConn(c, &xhttp2.ServeConnOpts{Handler: h, BaseConfig: &http.Server{ErrorLog: c12NullLog()}})
 	}
 }
 
